@@ -3,12 +3,20 @@
 prompt files /tmp/seed/prompts/<id><suffix>.txt containing ONLY the property text (nothing from /verif)."""
 import json, os, subprocess, sys
 suffix = sys.argv[1]
+import glob
 props = {json.loads(l)['id']: json.loads(l) for l in open('/verif/properties.jsonl')}
 os.makedirs('/tmp/seed/prompts', exist_ok=True)
 for pid in sys.argv[2:]:
     p = props[pid]
     wt = '/tmp/seed/%s%s' % (pid, suffix)
     subprocess.run(['git', '-C', '/repo', 'worktree', 'add', '--detach', wt, 'HEAD'], capture_output=True)
+    prev = []
+    for d in sorted(glob.glob('/verif/seeded/%s-*/agent_notes.json' % pid)):
+        try:
+            prev.append('- ' + (json.load(open(d)).get('summary') or '')[:400].replace('\n', ' '))
+        except Exception:
+            pass
+    avoid = ('\nEarlier seeded defects for this property used the following mechanisms -- choose a DIFFERENT mechanism and a different trigger (another function, another input class):\n' + '\n'.join(prev) + '\n') if prev else ''
     txt = f"""You are helping to evaluate a verification effort by producing a realistic *seeded defect*. You work ONLY inside the git worktree {wt} (a checkout of the Python package pymininec, a rewrite of the MININEC3 method-of-moments wire-antenna solver; the code is in {wt}/mininec/). Do not read or write anything under /verif or /repo, and do not look at other directories under /tmp/seed.
 
 The property that must be broken:
@@ -25,6 +33,7 @@ Your task: make ONE small change to the source under {wt}/mininec/ (a few lines,
   (1) the package still imports and the existing test suite still passes:  cd {wt} && /venv/bin/python -m pytest -q -p no:cacheprovider --deselect test/test_mininec.py::Test_Case_Known_Structure::test_vertical_ideal_ground_near    (takes about 1 minute; that one deselected test already fails on the unchanged code and is not part of the baseline; all others must pass);
   (2) the breakage needs something SPECIFIC to manifest -- an unusual input, a particular geometry/topology (e.g. a junction with a reversed wire, a wire grounded at its second end, different radii), a multi-step sequence of operations (e.g. a frequency sweep, two requests in a row), a particular option combination, or two cooperating sites that each look fine alone -- NOT something that ordinary use (a plain dipole) would expose at once. The golden-file tests pin ~50 ordinary antennas, so the change must leave all of those byte-identical.
 Prefer a mechanism that is NOT the most obvious one for this property: think about which code paths the anchors list and pick a less travelled one.
+{avoid}
 
 Deliver, in {wt}/ :
   - patch.diff : output of `git diff` (relative to HEAD, applies with `git apply` at the repository root) containing ONLY the change to mininec/*.py;
